@@ -24,6 +24,7 @@ type crashGroup struct {
 	template string         // cache home holding the pre-state
 	counts   map[string]int // per syscall: max calls made by one thread in the fault-free run
 	totals   map[string]int
+	openAtK  int // index (within its thread) of the openat that creates the temporary file
 	ok       bool
 }
 
@@ -34,6 +35,8 @@ type crashState struct {
 	byFault             map[string]int // effective injections by call/fault
 	outcomes            map[string]int // what the fresh process found afterwards
 	temps               int            // leftover temporary files seen
+	planned             int
+	onCache             int // effective injections that hit a call on a file of the cache directory
 	effectiveNs         map[string][]int
 	storeOKUnderFault   int
 	storeFailed         int
@@ -63,12 +66,14 @@ func copyTree(from, to string) error {
 }
 
 type straceRes struct {
-	exit     int
-	killed   bool
-	injected int
-	perTID   map[string]map[string]int // syscall → tid → calls
-	stderr   string
-	timedOut bool
+	exit        int
+	killed      bool
+	injected    int
+	onCache     bool                      // the faulted call operated on a file below the cache directory
+	cacheOpenAt map[string]int            // tid → 1-based index of its openat call that created the temp file
+	perTID      map[string]map[string]int // syscall → tid → calls
+	stderr      string
+	timedOut    bool
 }
 
 // straceStore runs one `vp c20-store` under strace with the given -e inject expressions.
@@ -77,14 +82,24 @@ func (k *check) straceStore(home, dir string, g *crashGroup, injects ...string) 
 	jf := filepath.Join(dir, "store.job.json")
 	os.WriteFile(jf, []byte(mustJSON(job)), 0o644)
 	trace := filepath.Join(dir, "trace.txt")
-	args := []string{"-f", "--seccomp-bpf", "-qq", "-o", trace, "-e", "trace=" + crashTrace}
+	args := []string{"-f", "-y", "-qq", "-o", trace, "-e", "trace=" + crashTrace}
+	seccomp := len(injects) > 0
+	for _, in := range injects {
+		if strings.Contains(in, "signal=") {
+			seccomp = false // strace 6.1 does not deliver signal-only injections in --seccomp-bpf mode
+		}
+	}
+	if seccomp {
+		args = append([]string{"--seccomp-bpf"}, args...)
+	}
 	for _, in := range injects {
 		args = append(args, "-e", "inject="+in)
 	}
 	args = append(args, k.c.Self, "c20-store", jf)
 	r := core.Exec(dir, k.env(home, "GOMAXPROCS=1", "GOGC=1000"), 2*time.Minute, "", "strace", args...)
-	res := straceRes{exit: r.Exit, stderr: r.Stderr, timedOut: r.TimedOut, perTID: map[string]map[string]int{}}
+	res := straceRes{exit: r.Exit, stderr: r.Stderr, timedOut: r.TimedOut, perTID: map[string]map[string]int{}, cacheOpenAt: map[string]int{}}
 	b, _ := os.ReadFile(trace)
+	lastCall := ""
 	for _, line := range strings.Split(string(b), "\n") {
 		f := strings.SplitN(line, " ", 2)
 		if len(f) < 2 {
@@ -92,9 +107,18 @@ func (k *check) straceStore(home, dir string, g *crashGroup, injects ...string) 
 		}
 		if strings.Contains(f[1], "killed by SIGKILL") {
 			res.killed = true
+			if strings.Contains(lastCall, "build_cache") {
+				res.onCache = true
+			}
 		}
 		if strings.HasSuffix(strings.TrimSpace(f[1]), "(INJECTED)") {
 			res.injected++
+			if strings.Contains(f[1], "build_cache") {
+				res.onCache = true
+			}
+		}
+		if !strings.HasPrefix(f[1], "---") && !strings.HasPrefix(f[1], "+++") {
+			lastCall = f[1]
 		}
 		call := f[1]
 		if i := strings.IndexByte(call, '('); i > 0 && !strings.HasPrefix(call, "---") && !strings.HasPrefix(call, "+++") && !strings.HasPrefix(call, "<...") {
@@ -103,6 +127,9 @@ func (k *check) straceStore(home, dir string, g *crashGroup, injects ...string) 
 				res.perTID[call] = map[string]int{}
 			}
 			res.perTID[call][f[0]]++
+			if call == "openat" && strings.Contains(f[1], "build_cache") && strings.Contains(f[1], "O_CREAT") {
+				res.cacheOpenAt[f[0]] = res.perTID[call][f[0]]
+			}
 		}
 	}
 	if r.Exit == -1 && !r.TimedOut {
@@ -128,6 +155,9 @@ func (k *check) crashJobs() (jobs, post []func()) {
 		{name: "mock/over-older-entry", pre: "mock:500:9", payload: "mock:600:5", again: "mock:700:7"},
 		{name: "sources/empty-cache", payload: srcNew, again: srcAgain},
 		{name: "sources/over-older-entry", pre: srcOld, payload: srcNew, again: srcAgain},
+	}
+	if c.Quick() {
+		groups = []*crashGroup{groups[0], groups[3]}
 	}
 	if !c.Quick() {
 		pk := genCorpusStride(c.Rand("crash-pkg"), 1, 1)[0]
@@ -174,7 +204,14 @@ func (k *check) crashJobs() (jobs, post []func()) {
 					}
 				}
 			}
-			v, ok := k.verify(home, run, g)
+			for _, idx := range res.cacheOpenAt {
+				g.openAtK = idx
+			}
+			vs, ok := k.verify(run, g, []string{home})
+			v := cw.VerifyOut{}
+			if ok && len(vs) == 1 {
+				v = vs[0]
+			}
 			if !ok || !v.Hit || v.HitIndex != len(g.allowed())-1 || v.IncompleteEntry != "" {
 				c.Inconclusive("crash-baseline-not-loadable")
 				fmt.Printf("C20 crash baseline of %s does not load its own store: %+v\n", g.name, v)
@@ -200,22 +237,30 @@ func (k *check) crashJobs() (jobs, post []func()) {
 			if !g.ok {
 				continue
 			}
-			for _, call := range []string{"write", "openat", "mkdirat", "renameat", "unlinkat"} {
+			for _, call := range []string{"write", "openat", "mkdirat", "renameat"} {
 				// when=N counts per thread: N ranges up to the TOTAL number of calls (no thread can
 				// make more) plus one, which must be a fault-free run
-				max := g.totals[call] + 1
-				if call == "unlinkat" && g.counts[call] == 0 {
-					continue
+				lo, hi := 1, g.totals[call]+1
+				if call == "openat" && g.openAtK > 0 && c.Quick() {
+					// quick: only around the openat that creates the temporary file (the others are
+					// the runtime's and the child's own start-up reads)
+					lo, hi = g.openAtK-1, g.openAtK+1
+					if lo < 1 {
+						lo = 1
+					}
 				}
-				for n := 1; n <= max; n++ {
+				for n := lo; n <= hi; n++ {
 					runs = append(runs, run{g, call, "kill", n, []string{fmt.Sprintf("%s:signal=KILL:when=%d", call, n)}})
-					for _, e := range []string{"ENOSPC", "EIO"} {
-						runs = append(runs, run{g, call, e, n, []string{fmt.Sprintf("%s:error=%s:when=%d", call, e, n)}})
+					runs = append(runs, run{g, call, "ENOSPC", n, []string{fmt.Sprintf("%s:error=ENOSPC:when=%d", call, n)}})
+					if call == "write" || !c.Quick() {
+						runs = append(runs, run{g, call, "EIO", n, []string{fmt.Sprintf("%s:error=EIO:when=%d", call, n)}})
 					}
 					if call == "write" {
 						runs = append(runs, run{g, call, "ENOSPC+", n, []string{fmt.Sprintf("write:error=ENOSPC:when=%d+", n)}})
 						runs = append(runs, run{g, call, "ENOSPC&unlink-EIO", n, []string{fmt.Sprintf("write:error=ENOSPC:when=%d", n), "unlinkat:error=EIO:when=1+"}})
-						runs = append(runs, run{g, call, "EIO&rename-EIO", n, []string{fmt.Sprintf("write:error=EIO:when=%d", n), "renameat:error=EIO:when=1+"}})
+						if !c.Quick() {
+							runs = append(runs, run{g, call, "EIO&rename-EIO", n, []string{fmt.Sprintf("write:error=EIO:when=%d", n), "renameat:error=EIO:when=1+"}})
+						}
 					}
 				}
 			}
@@ -223,25 +268,61 @@ func (k *check) crashJobs() (jobs, post []func()) {
 			runs = append(runs, run{g, "openat", "EMFILE+", 1, []string{"openat:error=EMFILE:when=1+"}})
 			runs = append(runs, run{g, "mkdirat", "EACCES+", 1, []string{"mkdirat:error=EACCES:when=1+"}})
 		}
-		c.Parallel(len(runs), func(i int) {
-			r := runs[i]
+		cs.mu.Lock()
+		cs.planned = len(runs)
+		cs.mu.Unlock()
+		// chunks: the stores run one process each under strace; ONE fresh process then examines
+		// what every store of the chunk left behind
+		const chunk = 12
+		type chunkT struct {
+			g    *crashGroup
+			runs []run
+		}
+		var chunks []chunkT
+		for _, g := range groups {
+			var mine []run
+			for _, r := range runs {
+				if r.g == g {
+					mine = append(mine, r)
+				}
+			}
+			for i := 0; i < len(mine); i += chunk {
+				j := i + chunk
+				if j > len(mine) {
+					j = len(mine)
+				}
+				chunks = append(chunks, chunkT{g, mine[i:j]})
+			}
+		}
+		c.Parallel(len(chunks), func(ci int) {
+			ch := chunks[ci]
 			dir := c.Dir("crash-run")
-			home := filepath.Join(dir, "home")
-			if err := copyTree(r.g.template, home); err != nil {
-				c.Inconclusive("crash-copy-failed")
-				return
+			var homes []string
+			var results []straceRes
+			var done []run
+			for i, r := range ch.runs {
+				home := filepath.Join(dir, fmt.Sprint("home", i))
+				if err := copyTree(r.g.template, home); err != nil {
+					c.Inconclusive("crash-copy-failed")
+					continue
+				}
+				res := k.straceStore(home, dir, r.g, r.injects...)
+				if res.timedOut {
+					c.Inconclusive("crash-store-timeout")
+					continue
+				}
+				homes = append(homes, home)
+				results = append(results, res)
+				done = append(done, r)
 			}
-			res := k.straceStore(home, dir, r.g, r.injects...)
-			if res.timedOut {
-				c.Inconclusive("crash-store-timeout")
-				return
-			}
-			v, ok := k.verify(home, dir, r.g)
-			if !ok {
+			vs, ok := k.verify(dir, ch.g, homes)
+			if !ok || len(vs) != len(homes) {
 				c.Inconclusive("crash-verify-child-failed")
 				return
 			}
-			k.judgeCrash(r.g, r.call, r.fault, r.n, res, v)
+			for i, r := range done {
+				k.judgeCrash(r.g, r.call, r.fault, r.n, results[i], vs[i])
+			}
 			os.RemoveAll(dir)
 		})
 	})
@@ -255,12 +336,12 @@ func (g *crashGroup) allowed() []cw.PayloadSpec {
 	return []cw.PayloadSpec{g.payload}
 }
 
-func (k *check) verify(home, dir string, g *crashGroup) (cw.VerifyOut, bool) {
-	job := cw.VerifyJob{Scratch: k.c.Scratch, ImportPath: importPathCrash, Allowed: g.allowed(), Again: g.again, Out: filepath.Join(dir, "verify.json")}
+func (k *check) verify(dir string, g *crashGroup, homes []string) ([]cw.VerifyOut, bool) {
+	job := cw.VerifyJob{Scratch: k.c.Scratch, ImportPath: importPathCrash, Allowed: g.allowed(), Again: g.again, Homes: homes, Out: filepath.Join(dir, "verify.json")}
 	os.Remove(job.Out)
-	var v cw.VerifyOut
-	_, ok := k.child("c20-verify", home, job, job.Out, &v, 2*time.Minute)
-	return v, ok
+	var vs []cw.VerifyOut
+	_, ok := k.child("c20-verify", filepath.Join(dir, "verify-home"), job, job.Out, &vs, 5*time.Minute)
+	return vs, ok
 }
 
 func (k *check) judgeCrash(g *crashGroup, call, fault string, n int, res straceRes, v cw.VerifyOut) {
@@ -284,6 +365,9 @@ func (k *check) judgeCrash(g *crashGroup, call, fault string, n int, res straceR
 		cs.byFault[call+"/"+fault]++
 		cs.effectiveNs[g.name+" "+call+"/"+fault] = append(cs.effectiveNs[g.name+" "+call+"/"+fault], n)
 		k.distinct["crash/"+id] = true
+	}
+	if effective && res.onCache {
+		cs.onCache++
 	}
 	if res.killed {
 		cs.killed++
@@ -327,7 +411,9 @@ func (k *check) judgeCrash(g *crashGroup, call, fault string, n int, res straceR
 func (k *check) finishCrash() {
 	c := k.c
 	c.Count("crash_runs", cs.runs)
+	c.Count("crash_runs_planned", cs.planned)
 	c.Count("crash_points_effective", cs.effective)
+	c.Count("crash_points_effective_on_cache_files", cs.onCache)
 	c.Count("crash_kills", cs.killed)
 	c.Count("crash_error_sequences_injected", cs.errInjected)
 	c.Count("crash_store_false_under_fault", cs.storeFailed)
@@ -340,5 +426,7 @@ func (k *check) finishCrash() {
 	}
 	k.extra["crash"] = map[string]any{"effective_injections_by_call_and_fault": cs.byFault, "fresh_process_outcomes": cs.outcomes,
 		"effective_when_N_by_group": ns, "fault_free_syscalls_per_store": cs.baselineSyscalls}
-	k.belowFloor("effective crash points", cs.effective, c.N(150, 600))
+	k.belowFloor("effective crash points", cs.effective, c.N(80, 600))
+	k.belowFloor("effective crash points on cache files", cs.onCache, c.N(50, 400))
+	k.belowFloor("kills at a syscall of Store", cs.killed, c.N(15, 150))
 }
